@@ -19,6 +19,7 @@ func C11(c *core.Ctx) {
 	p := c.P
 	c11Forwarder(c)
 	c11AppFace(c)
+	c11ReadBytesBeforeError(c)
 
 	// ---- R11.3 frame ownership
 	ls := p.Named("fw/face", "LinkService")
@@ -232,21 +233,12 @@ func blockSizeOf(v, t, l ssa.Value) bool {
 		}
 		return hp == 1 && hv == 1
 	}
-	if len(as) != 3 {
-		return false
-	}
-	var ht, hl, hv int
-	for _, a := range as {
-		switch {
-		case isEncLenOf(a, t):
-			ht++
-		case isEncLenOf(a, l):
-			hl++
-		case core.StripConv(a) == core.Strip(l):
-			hv++
-		}
-	}
-	return ht == 1 && hl == 1 && hv == 1
+	// (the three-addend form T.EncodingLength() + L.EncodingLength() + L, which an earlier
+	// version of this table accepted as equivalent, is NOT: ReadTLNum accepts a number
+	// written in a longer than shortest form, so the size of the header cannot be derived
+	// from the values — a block with such a header was split and every later block lost)
+	_ = t
+	return false
 }
 
 func c11Forwarder(c *core.Ctx) {
@@ -444,11 +436,34 @@ func c11Forwarder(c *core.Ctx) {
 	if okSrc {
 		// cursor reset on the edges leaving the copy's block: W := w-p, P(outer) := 0
 		okW, okP := false, false
-		for i, e := range W.Edges {
-			pred := W.Block().Preds[i]
+		// the value a cursor takes on the way out of the copy's block — also when the
+		// compaction's join point (an `if` without else, followed by more code of the
+		// iteration) puts a phi between the copy and the loop header
+		var viaCopy func(v ssa.Value, pred *ssa.BasicBlock, d int) (ssa.Value, bool)
+		viaCopy = func(v ssa.Value, pred *ssa.BasicBlock, d int) (ssa.Value, bool) {
 			if pred == cp.Block() || cp.Block().Dominates(pred) {
-				b, ok := core.Strip(e).(*ssa.BinOp)
-				okW = ok && b.Op == token.SUB && sameVal(b.X, W2) && core.Resolve(b.Y) == pAt
+				if ph, isPh := core.Strip(v).(*ssa.Phi); isPh && d < 4 && !cp.Block().Dominates(ph.Block()) {
+					for j, e2 := range ph.Edges {
+						if r, ok := viaCopy(e2, ph.Block().Preds[j], d+1); ok {
+							return r, true
+						}
+					}
+				}
+				return v, true
+			}
+			if ph, isPh := core.Strip(v).(*ssa.Phi); isPh && d < 4 {
+				for j, e2 := range ph.Edges {
+					if r, ok := viaCopy(e2, ph.Block().Preds[j], d+1); ok {
+						return r, true
+					}
+				}
+			}
+			return nil, false
+		}
+		for i, e := range W.Edges {
+			if v, ok := viaCopy(e, W.Block().Preds[i], 0); ok {
+				b, okB := core.Strip(v).(*ssa.BinOp)
+				okW = okB && b.Op == token.SUB && sameVal(b.X, W2) && core.Resolve(b.Y) == pAt
 			}
 		}
 		// the phi through which the parse cursor re-enters the receive loop
@@ -457,9 +472,8 @@ func c11Forwarder(c *core.Ctx) {
 				continue
 			}
 			for i, e := range ph.Edges {
-				pred := ph.Block().Preds[i]
-				if pred == cp.Block() || cp.Block().Dominates(pred) {
-					k, isC := core.ConstInt(e)
+				if v, ok := viaCopy(e, ph.Block().Preds[i], 0); ok {
+					k, isC := core.ConstInt(v)
 					if isC && k == 0 {
 						okP = true
 					} else {
@@ -519,6 +533,50 @@ func phiFeeds(a ssa.Value, b ssa.Value) bool {
 	return false
 }
 
+// c11ReadBytesBeforeError — R11.1: bytes that Read returns together with an error are
+// framed like any others (io.Reader allows (n > 0, err), io.EOF included): from the Read
+// call the parse of the next block is reachable, in the same iteration, also on the edges
+// asserting err != nil.
+func c11ReadBytesBeforeError(c *core.Ctx) {
+	fn := c.P.Func("fw/face", "", "readTlvStream")
+	if fn == nil {
+		return
+	}
+	var rd *ssa.Call
+	var parse ssa.Instruction
+	core.InstrsDeep(fn, func(in ssa.Instruction) {
+		if cl, ok := in.(*ssa.Call); ok {
+			if cl.Call.IsInvoke() && cl.Call.Method.Name() == "Read" && rd == nil {
+				rd = cl
+			}
+			if id, okID := core.Callee(&cl.Call); okID && id.Name == "ReadTLNum" && parse == nil {
+				parse = in
+			}
+		}
+	})
+	if rd == nil || parse == nil || rd.Parent() != parse.Parent() {
+		return
+	}
+	var errv ssa.Value
+	for _, r := range core.Refs(rd) {
+		if ex, ok := r.(*ssa.Extract); ok && ex.Index == 1 {
+			errv = ex
+		}
+	}
+	if errv == nil {
+		return
+	}
+	okErr := atomNonNil("Read error", errv)
+	cut := map[core.Edge]bool{}
+	for _, f := range core.EdgeFacts(fn, okErr) {
+		if !f.Holds { // err == nil
+			cut[f.E] = true
+		}
+	}
+	reach := core.ReachInstrFrom(core.After(rd), parse, cut, func(x ssa.Instruction) bool { return x == ssa.Instruction(rd) }) != nil
+	c.Decide(reach, "R11.1", "bytes-returned-with-an-error-are-framed", c.Pos(rd), "the parse of the next block is reachable from Read in the same iteration also when Read reported an error", "readTlvStream looks at the error of Read before it parses the bytes returned with it: a final (n > 0, io.EOF) result loses the complete blocks of that chunk, and a chunk returned with an ignored error is parsed only after a later successful read (lost if the stream ends first)")
+}
+
 func c11AppFace(c *core.Ctx) {
 	p := c.P
 	fn := c.Fn("R11.2", "std/engine/face", "StreamFace", "Run")
@@ -553,11 +611,40 @@ func c11AppFace(c *core.Ctx) {
 		c.Und("R11.2", "block-buffer", p.Pos(fn.Pos()), "no []byte allocation found in StreamFace.Run")
 		return
 	}
-	c.Decide(blockSizeOf(mk.Len, t, l) && core.InLoop(mk.Block()), "R11.2", "buffer-is-T+L+value-per-block", c.Pos(mk), "a fresh buffer of len(T)+len(L)+L bytes for every block", "the block buffer is not a fresh allocation of len(T)+len(L)+L bytes per block: blocks are truncated, padded, or overwrite each other while the engine still parses them")
-	// offsets
-	okT, okL, okV := false, false, false
+	// The block is handed up AS RECEIVED: its header octets are the ones that were read (a
+	// number written in a longer than shortest form is legal and every parser accepts it;
+	// re-encoding the header changes the bytes — and with them the implicit digest the
+	// engine computes over a bare Data). So: buffer = make(len(header read) + L); the header
+	// octets are copied to its start; the value is read in full behind them; T and L are
+	// NOT encoded into the buffer again.
+	var hdr ssa.Value // the slice holding the header octets that were read
+	for _, a := range addends(mk.Len) {
+		if h, isLen := core.LenOf(core.StripConv(a)); isLen {
+			if _, isSl := h.Type().Underlying().(*types.Slice); isSl {
+				hdr = h
+			}
+		}
+	}
+	okSize := false
+	if hdr != nil {
+		as := addends(mk.Len)
+		if len(as) == 2 {
+			for k := 0; k < 2; k++ {
+				if h, isLen := core.LenOf(core.StripConv(as[k])); isLen && core.Same(h, hdr) && core.StripConv(as[1-k]) == l {
+					okSize = true
+				}
+			}
+		}
+	}
+	c.Decide(okSize && core.InLoop(mk.Block()), "R11.2", "buffer-is-header+value-per-block", c.Pos(mk), "a fresh buffer of len(header octets read)+L bytes for every block", "the block buffer is not a fresh allocation of (header octets read)+L bytes per block: blocks are truncated, padded, or overwrite each other while the engine still parses them — or the header is sized from the shortest encoding of T and L instead of from the octets that were read")
+	okT, okV, reenc := false, false, ""
 	var full ssa.CallInstruction
 	core.InstrsDeep(fn, func(in ssa.Instruction) {
+		if cl, ok := isBuiltinCall(in, "copy"); ok && hdr != nil {
+			if unwrapBytes(cl.Call.Args[0]) == ssa.Value(mk) && core.Same(unwrapBytes(cl.Call.Args[1]), hdr) {
+				okT = true
+			}
+		}
 		ci, ok := in.(ssa.CallInstruction)
 		if !ok {
 			return
@@ -568,27 +655,31 @@ func c11AppFace(c *core.Ctx) {
 		}
 		switch {
 		case id.Pkg == "std/encoding" && id.Name == "EncodeInto":
-			r, a := core.CallArgs(ci.Common())
+			_, a := core.CallArgs(ci.Common())
 			dst := unwrapBytes(a[0])
-			if core.Strip(r) == core.Strip(t) {
-				okT = dst == ssa.Value(mk)
+			if sl, isSl := dst.(*ssa.Slice); isSl {
+				dst = sl.X
 			}
-			if core.Strip(r) == core.Strip(l) {
-				if sl, ok := dst.(*ssa.Slice); ok && sl.X == ssa.Value(mk) && sl.Low != nil && isEncLenOf(sl.Low, t) {
-					okL = true
-				}
+			if dst == ssa.Value(mk) {
+				reenc = c.Pos(in)
 			}
 		case id.Pkg == "io" && id.Name == "ReadFull":
 			full = ci
 			_, a := core.CallArgs(ci.Common())
-			if sl, ok := unwrapBytes(a[1]).(*ssa.Slice); ok && sl.X == ssa.Value(mk) && sl.Low != nil && sl.High == nil {
-				as := addends(sl.Low)
-				okV = len(as) == 2 && ((isEncLenOf(as[0], t) && isEncLenOf(as[1], l)) || (isEncLenOf(as[1], t) && isEncLenOf(as[0], l)))
+			if sl, ok := unwrapBytes(a[1]).(*ssa.Slice); ok && sl.X == ssa.Value(mk) && sl.Low != nil && sl.High == nil && hdr != nil {
+				if h, isLen := core.LenOf(core.StripConv(sl.Low)); isLen && core.Same(h, hdr) {
+					okV = true
+				}
 			}
 		}
 	})
-	c.Decide(okT && okL, "R11.2", "header-rewritten-in-place", c.Pos(mk), "T is written at offset 0 and L at offset len(T)", "the block's type and length are not written at offsets 0 and len(T) of the buffer: the engine parses a different header than was received")
-	c.Decide(full != nil && okV, "R11.2", "value-read-in-full", c.Pos(mk), "io.ReadFull reads the value into buffer[len(T)+len(L):], i.e. exactly L bytes", "the value is not read with io.ReadFull into buffer[len(T)+len(L):]: a short read (any chunking of the stream) hands up a partly filled block, or the next block starts at the wrong byte")
+	c.Decide(okT && reenc == "", "R11.2", "header-kept-as-received", c.Pos(mk), "the header octets that were read are copied to the start of the buffer; T and L are not encoded again", "the block's header is not the one that was received (T and L are re-encoded into the buffer"+func() string {
+		if reenc != "" {
+			return " at " + reenc
+		}
+		return ""
+	}()+", or the octets read are not copied to its start): a type or length written in a longer form reaches the engine in the shortest form — the block is not byte-identical, and the implicit digest computed over it differs from the sender's")
+	c.Decide(full != nil && okV, "R11.2", "value-read-in-full", c.Pos(mk), "io.ReadFull reads the value into buffer[len(header):], i.e. exactly L bytes", "the value is not read with io.ReadFull into buffer[len(header octets):]: a short read (any chunking of the stream) hands up a partly filled block, or the next block starts at the wrong byte")
 	// hand-up: onPkt(NewBufferReader(buf))
 	okUp := false
 	core.InstrsDeep(fn, func(in ssa.Instruction) {
